@@ -79,6 +79,8 @@ def gen_case(world, tier, prop):
 
   def child(depth=0):
     r = rng.random()
+    if r < 0.08:
+      return {'const': rng.randrange(14)}
     if r < 0.30 or (not node_ids and r < 0.7):
       return token()
     if r < 0.70 and node_ids:
@@ -469,6 +471,7 @@ def run(case):
   targets = sorted(nodes_by_uid, key=lambda u: (str(type(u)), u))
   if case.get('only_uid') is not None:
     targets = [u for u in targets if u == case['only_uid']]
+  alive = []   # escaped exceptions stay referenced: proxy classes stay cached
   for u in targets:
     exc, expect = stubmod.make_exception(shape, u)
     state = {'hit': 0}
@@ -489,6 +492,7 @@ def run(case):
     finally:
       rec.on_invoke = None
       stubmod.Hostile.mode = None
+    alive.append(escaped)
     fmt_fired = stubmod.Hostile.fired > fired0
     if fmt_fired:
       bump(faults, 'format_raises')
@@ -504,6 +508,11 @@ def run(case):
     if escaped is None:
       viols.append(V('C05', 'failure-swallowed',
                      f'callable uid {u} raised {shape} but build returned', **tag))
+      if len(log) < len(cfg_nodes):
+        viols.append(V('C02', 'incomplete-build-returned',
+                       f'fdl.build returned normally although only {len(log)} of '
+                       f'{len(cfg_nodes)} Buildable instances were invoked (the '
+                       f'callable of uid {u} raised {shape})'))
       return res
     # 1. class
     if not isinstance(escaped, type(exc)):
